@@ -507,9 +507,9 @@ func c14GenCall(rng *rand.Rand, c *Case) []string {
 	default:
 		kind := []string{"sum", "count", "avg", "min", "max"}[rng.Intn(5)]
 		st, rs := "-", "-"
-		if rng.Intn(3) == 0 {
+		if rng.Intn(2) == 0 {
 			st = c14PredTok(rng, 2)
-			if rng.Intn(2) == 0 {
+			if rng.Intn(3) > 0 {
 				rs = c14PredTok(rng, 2)
 			}
 			c.Stat = append(c.Stat, "acc-start/reset")
